@@ -57,7 +57,7 @@ CHECKS = {
     "C11": dict(
         category="fault_enumeration",
         technique="deterministic simulation of the terminal -> validator -> evaluator loop with input delivered in seeded chunks and the end of input injected at every token boundary (enumerated) and at seeded mid-token positions",
-        text="For each generated sequence of quoted well-formed data the scanner's spans must equal the generator's token boundaries and satisfy the span invariants; the simulated front-end loop (chunks, validate, evaluate one datum, trimmed remaining text) must visit each datum once in order within #data + #chunks iterations; the end of input is injected after EVERY token of every text: complete data are consumed and the rest is reported Incomplete, never an error, and a complete datum is never Incomplete. A quarter of the runs feed token soup, random Unicode, mutations and mid-token cuts for totality, span invariants and progress.",
+        text="For each generated sequence of quoted well-formed data the scanner's spans must equal the generator's token boundaries and satisfy the span invariants; the simulated front-end loop (chunks, validate, evaluate one datum, trimmed remaining text) must visit each datum once in order within #data + #chunks iterations; the end of input is injected after EVERY token of every text: complete data are consumed and the rest is reported Incomplete, never an error, and a complete datum is never Incomplete. A quarter of the runs feed token soup, random Unicode, mutations and mid-token cuts for totality, span invariants and progress. Every run executes on a freshly spawned thread after a seeded history of 0-3 earlier scans (some ending in a lexical error), so a scan's answer cannot depend on earlier scans unnoticed.",
         note="EOF positions are enumerated per text, texts are sampled. The two front-end loops are re-implemented in the harness after marwood-repl/src/main.rs and marwood-wasm/src/lib.rs (rustyline and JS cannot be linked); lex::scan, parse::parse, parse_text and Vm::eval_text are the real ones.",
         design="§5 C11",
     ),
